@@ -225,6 +225,16 @@ theorem workerFunc_exit_is_one_region :
     Gen.wpRegions_workerFunc.length = 1 ∧ Gen.wpUnlocked_workerFunc = [] ∧
     "w:workersCount" ∈ Gen.wpRegions_workerFunc.flatten := by decide
 
+/-- `workersCount` is written in exactly two places: the creation branch of getCh (event `getCh`, +1) and the tail of
+    workerFunc (event `exit`, −1, once per worker goroutine).  clean, Stop, release and Serve do not touch it — the
+    invariant `workersCount = number of unfinished workers` (workers_le_max) is about exactly these two events. -/
+theorem workersCount_written_only_by_getCh_and_exit :
+    "w:workersCount" ∈ Gen.wpRegions_getCh.flatten ∧ "w:workersCount" ∈ Gen.wpRegions_workerFunc.flatten ∧
+    (∀ t ∈ ["w:workersCount", "r:workersCount"],
+      t ∉ Gen.wpRegions_clean.flatten ∧ t ∉ Gen.wpUnlocked_clean ∧ t ∉ Gen.wpRegions_Stop.flatten ∧ t ∉ Gen.wpUnlocked_Stop ∧
+      t ∉ Gen.wpRegions_release.flatten ∧ t ∉ Gen.wpUnlocked_release ∧ t ∉ Gen.wpRegions_Serve.flatten ∧ t ∉ Gen.wpUnlocked_Serve) := by
+  decide
+
 /-! ### non-vacuity -/
 
 /-- evaluate a Boolean observation on the final state of a run -/
